@@ -310,6 +310,15 @@ def check_declaration(cx: Cx):
         for it_ev in [e for e in p.events if e.kind == 'iter']:
             ni += 1
             info = it_ev.data['info']
+            lps = [e for e in p.events if e.kind == 'loop' and e.node is it_ev.node]
+            src0 = Sym(pinit.params[1]) if len(pinit.params) > 1 else None
+            if lps and src0 is not None and order_class(lps[0].data.get('iter'), src0) == 'reordered':
+                okc = False
+                cx.violation('R-ITER', pinit.qualname, 'constructor-declares-in-dictionary-order',
+                             f"ParameterList.__init__ walks the constructor dictionary as {lps[0].data.get('iter')!r}: the parameters are "
+                             f"declared in another order than the dictionary lists them, so the first-listed parameter no longer varies "
+                             f"slowest in the product", where=cx.where(pinit, it_ev.line), path=p.lines())
+                break
             key = info.get('index') if info.get('kind') == 'items' else info.get('var')
             st = [e for e in p.events if e.kind == 'store' and e.data.get('loc') == LOC and e.data.get('store') == 'setitem'
                   and e.data.get('key') == key and p.events.index(e) > p.events.index(it_ev)]
